@@ -356,7 +356,7 @@ def overlap(case: dict[str, Any], r: dict[str, Any]) -> bool:
 
 
 def shards(tier: str) -> list[dict[str, Any]]:
-    return [{"n": 200 if tier == "quick" else 7000} for _ in range(13)] + [{"n": 25 if tier == "quick" else 900, "cancel_sweep": True} for _ in range(3)]
+    return [{"n": 200 if tier == "quick" else 20000} for _ in range(13)] + [{"n": 25 if tier == "quick" else 2500, "cancel_sweep": True} for _ in range(3)]
 
 
 def cancel_points(case: dict[str, Any], victim: int) -> list[float]:
